@@ -55,6 +55,28 @@ theorem scatter_eigvals (A : List Mat3) (row : Fin 3) (hunit : ∀ a ∈ A, dot3
   refine ⟨h.nonneg_of_psd (fun x => (scatter_psd A row x).2) 0, h.asc.1, h.asc.2, ?_⟩
   rw [← h.trace_eq, scatter_trace_eq_n A row hunit]
 
+/-- **the residual test the harness applies to `eigvalsh` is sound**: an ascending triple with the
+same three invariants (trace, second invariant `(tr² − Σ S_ij²)/2`, determinant) as a symmetric matrix
+that has an eigen-decomposition is its spectrum -/
+theorem eigvals_determined_by_invariants (S : Mat3) (w : Vec3) (V : Mat3) (h : IsEigen S w V)
+    (w' : Vec3) (hasc : w' 0 ≤ w' 1 ∧ w' 1 ≤ w' 2)
+    (h1 : w' 0 + w' 1 + w' 2 = trace3 S)
+    (h2 : w' 0 * w' 1 + w' 1 * w' 2 + w' 0 * w' 2 = (trace3 S ^ 2 - inner3 S S) / 2)
+    (h3 : w' 0 * w' 1 * w' 2 = det3 S) : w' = w := by
+  apply sorted_roots_unique w' w hasc h.asc
+  intro x
+  rw [← h.charpoly x]
+  have hs := h.symm
+  have s01 : S 1 0 = S 0 1 := congrFun (congrFun hs 0) 1
+  have s02 : S 2 0 = S 0 2 := congrFun (congrFun hs 0) 2
+  have s12 : S 2 1 = S 1 2 := congrFun (congrFun hs 1) 2
+  have hdet : det3 (msub (smul3 x one3) S)
+      = x ^ 3 - trace3 S * x ^ 2 + ((trace3 S ^ 2 - inner3 S S) / 2) * x - det3 S := by
+    simp [det3, msub, smul3, one3, trace3, inner3, sum3, s01, s02, s12]
+    ring
+  rw [hdet]
+  linear_combination (-(x ^ 2)) * h1 + x * h2 - h3
+
 /-! ## P, G, R -/
 
 /-- **P + G + R = 1** whenever the eigenvalue sum is not zero -/
